@@ -25,8 +25,8 @@ structure RelCs (k : Nat) (cs : CsState) (ch : ChunkStream) : Prop where
   delta : cs.delta < 4294967296
 
 /-- Sender-side state after the header of event `e`. -/
-def csAfter (c : CsState) (e : ChunkEv) : CsState :=
-  { ts := newTs c e, delta := e.tsField, len := e.len, ty := e.ty, sid := e.sid,
+def csAfter (a : Bool) (c : CsState) (e : ChunkEv) : CsState :=
+  { ts := newTs a c e, delta := e.tsField, len := e.len, ty := e.ty, sid := e.sid,
     got := if c.busy then c.got else [], busy := true }
 
 theorem tsWire_lt (t : Nat) : tsWire t < 16777216 := by unfold tsWire; split <;> omega
@@ -51,10 +51,10 @@ theorem readExtSpec (t : Nat) (ht : t < 4294967296) (h : Header) (tail : Bytes) 
     simp [hx, e, h4]
   · simp [hx]
 
-theorem readMessageHeader_spec0 (k : Nat) (c : CsState) (ch : ChunkStream) (e : ChunkEv) (tail : Bytes)
+theorem readMessageHeader_spec0 (a : Bool) (k : Nat) (c : CsState) (ch : ChunkStream) (e : ChunkEv) (tail : Bytes)
     (hr : RelCs k c ch) (hev : EvOK e) (hf : e.fmt = 0) (hb : c.busy = false) :
     readMessageHeader ch e.fmt (messageHeader e ++ (extendedTimestamp e ++ tail)) =
-      ok ({ ch with hdr := hdrOfCs k (csAfter c e), msg := some { hdr := hdrOfCs k (csAfter c e), payload := [] },
+      ok ({ ch with hdr := hdrOfCs k (csAfter a c e), msg := some { hdr := hdrOfCs k (csAfter a c e), payload := [] },
                     count := ch.count + 1, extTs := decide (16777215 ≤ e.tsField) }, tail) := by
   obtain ⟨_, _, hts, hlen, hty, hsid, _⟩ := hev
   have hmsg : ch.msg = none := by rw [hr.msg, hb]; rfl
@@ -84,11 +84,11 @@ theorem hdr_split7 (a b : Bytes) (t : UInt8) (ha : a.length = 3) (hb : b.length 
 
 theorem readFull_zero (bs : Bytes) : readFull 0 bs = ok ([], bs) := by simp [readFull]
 
-theorem readMessageHeader_spec1 (k : Nat) (c : CsState) (ch : ChunkStream) (e : ChunkEv) (tail : Bytes)
+theorem readMessageHeader_spec1 (a : Bool) (k : Nat) (c : CsState) (ch : ChunkStream) (e : ChunkEv) (tail : Bytes)
     (hr : RelCs k c ch) (hev : EvOK e) (hf : e.fmt = 1) (hb : c.busy = false) (hsid : e.sid = c.sid)
     (hcount : ch.count ≠ 0 ∨ ch.cid = 2) (hx : ¬ 16777215 ≤ e.tsField) :
     readMessageHeader ch e.fmt (messageHeader e ++ (extendedTimestamp e ++ tail)) =
-      ok ({ ch with hdr := hdrOfCs k (csAfter c e), msg := some { hdr := hdrOfCs k (csAfter c e), payload := [] },
+      ok ({ ch with hdr := hdrOfCs k (csAfter a c e), msg := some { hdr := hdrOfCs k (csAfter a c e), payload := [] },
                     count := ch.count + 1, extTs := decide (16777215 ≤ e.tsField) }, tail) := by
   obtain ⟨_, _, hts, hlen, hty, _, _⟩ := hev
   have hmsg : ch.msg = none := by rw [hr.msg, hb]; rfl
@@ -110,12 +110,12 @@ theorem readMessageHeader_spec1 (k : Nat) (c : CsState) (ch : ChunkStream) (e : 
   simp [hx, hdrOfCs, csAfter, newTs, hb, hf, hr.hdr, tsWire_small hx, extendedTimestamp, hsid, hmod]
   exact hc0
 
-theorem readMessageHeader_spec2 (k : Nat) (c : CsState) (ch : ChunkStream) (e : ChunkEv) (tail : Bytes)
+theorem readMessageHeader_spec2 (a : Bool) (k : Nat) (c : CsState) (ch : ChunkStream) (e : ChunkEv) (tail : Bytes)
     (hr : RelCs k c ch) (hf : e.fmt = 2) (hb : c.busy = false)
     (hsame : e.sid = c.sid ∧ e.len = c.len ∧ e.ty = c.ty)
     (hcount : ch.count ≠ 0) (hx : ¬ 16777215 ≤ e.tsField) :
     readMessageHeader ch e.fmt (messageHeader e ++ (extendedTimestamp e ++ tail)) =
-      ok ({ ch with hdr := hdrOfCs k (csAfter c e), msg := some { hdr := hdrOfCs k (csAfter c e), payload := [] },
+      ok ({ ch with hdr := hdrOfCs k (csAfter a c e), msg := some { hdr := hdrOfCs k (csAfter a c e), payload := [] },
                     count := ch.count + 1, extTs := decide (16777215 ≤ e.tsField) }, tail) := by
   obtain ⟨hsid, hlen, hty⟩ := hsame
   have hmsg : ch.msg = none := by rw [hr.msg, hb]; rfl
@@ -130,12 +130,12 @@ theorem readMessageHeader_spec2 (k : Nat) (c : CsState) (ch : ChunkStream) (e : 
   simp only [Res.bind_ok, applyHeader_2, fD, s3, hD]
   simp [hx, hdrOfCs, csAfter, newTs, hb, hf, hr.hdr, tsWire_small hx, extendedTimestamp, hsid, hlen, hty, hmod]
 
-theorem readMessageHeader_spec3_first (k : Nat) (c : CsState) (ch : ChunkStream) (e : ChunkEv) (tail : Bytes)
+theorem readMessageHeader_spec3_first (a : Bool) (k : Nat) (c : CsState) (ch : ChunkStream) (e : ChunkEv) (tail : Bytes)
     (hr : RelCs k c ch) (hf : e.fmt = 3) (hb : c.busy = false)
     (hsame : e.tsField = c.delta ∧ e.len = c.len ∧ e.ty = c.ty ∧ e.sid = c.sid)
     (hcount : ch.count ≠ 0) (hx : ¬ 16777215 ≤ e.tsField) :
     readMessageHeader ch e.fmt (messageHeader e ++ (extendedTimestamp e ++ tail)) =
-      ok ({ ch with hdr := hdrOfCs k (csAfter c e), msg := some { hdr := hdrOfCs k (csAfter c e), payload := [] },
+      ok ({ ch with hdr := hdrOfCs k (csAfter a c e), msg := some { hdr := hdrOfCs k (csAfter a c e), payload := [] },
                     count := ch.count + 1, extTs := decide (16777215 ≤ e.tsField) }, tail) := by
   obtain ⟨hd, hlen, hty, hsid⟩ := hsame
   have hmsg : ch.msg = none := by rw [hr.msg, hb]; rfl
@@ -150,12 +150,12 @@ theorem readMessageHeader_spec3_first (k : Nat) (c : CsState) (ch : ChunkStream)
   simp only [Res.bind_ok, applyHeader_3 _ 3 (Nat.le_refl _)]
   simp [hx', hext, hdrOfCs, csAfter, newTs, hb, hf, hr.hdr, tsWire_small hx', extendedTimestamp, hd, hsid, hlen, hty, hmod]
 
-theorem readMessageHeader_spec3_cont (k : Nat) (c : CsState) (ch : ChunkStream) (e : ChunkEv) (tail : Bytes)
+theorem readMessageHeader_spec3_cont (a : Bool) (k : Nat) (c : CsState) (ch : ChunkStream) (e : ChunkEv) (tail : Bytes)
     (hr : RelCs k c ch) (hf : e.fmt = 3) (hb : c.busy = true)
     (hsame : e.tsField = c.delta ∧ e.len = c.len ∧ e.ty = c.ty ∧ e.sid = c.sid)
     (hcount : ch.count ≠ 0) :
     readMessageHeader ch e.fmt (messageHeader e ++ (extendedTimestamp e ++ tail)) =
-      ok ({ ch with hdr := hdrOfCs k (csAfter c e), msg := some { hdr := hdrOfCs k (csAfter c e), payload := c.got },
+      ok ({ ch with hdr := hdrOfCs k (csAfter a c e), msg := some { hdr := hdrOfCs k (csAfter a c e), payload := c.got },
                     count := ch.count + 1, extTs := decide (16777215 ≤ e.tsField) }, tail) := by
   obtain ⟨hd, hlen, hty, hsid⟩ := hsame
   have hmsg : ch.msg = some { hdr := hdrOfCs k c, payload := c.got } := by rw [hr.msg, hb]; rfl
@@ -173,14 +173,90 @@ theorem readMessageHeader_spec3_cont (k : Nat) (c : CsState) (ch : ChunkStream) 
   · have habs := hr.abs hb hx
     simp [hx, hr.ext, hdrOfCs, csAfter, newTs, hb, hr.hdr, extendedTimestamp, hd, hsid, hlen, hty, e4, h4, habs]
   · simp [hx, hr.ext, hdrOfCs, csAfter, newTs, hb, hr.hdr, extendedTimestamp, hd, hsid, hlen, hty]
-/-- All header types at once. -/
-theorem readMessageHeader_spec (k : Nat) (c : CsState) (ch : ChunkStream) (e : ChunkEv) (tail : Bytes)
+/-! The same three header types when the field is EXTENDED, under the deviating reading `absExt = true`
+(the extended field taken as an absolute time): this is what the reader does (K2). -/
+
+theorem readMessageHeader_spec1_ext (k : Nat) (c : CsState) (ch : ChunkStream) (e : ChunkEv) (tail : Bytes)
+    (hr : RelCs k c ch) (hev : EvOK e) (hf : e.fmt = 1) (hb : c.busy = false) (hsid : e.sid = c.sid)
+    (hcount : ch.count ≠ 0 ∨ ch.cid = 2) (hx : 16777215 ≤ e.tsField) :
+    readMessageHeader ch e.fmt (messageHeader e ++ (extendedTimestamp e ++ tail)) =
+      ok ({ ch with hdr := hdrOfCs k (csAfter true c e), msg := some { hdr := hdrOfCs k (csAfter true c e), payload := [] },
+                    count := ch.count + 1, extTs := decide (16777215 ≤ e.tsField) }, tail) := by
+  obtain ⟨_, _, hts, hlen, hty, _, _⟩ := hev
+  have hmsg : ch.msg = none := by rw [hr.msg, hb]; rfl
+  obtain ⟨s3, s33, s6, s7⟩ := hdr_split7 (be 3 (tsWire e.tsField)) (be 3 e.len)
+    (UInt8.ofNat e.ty) (be_length _ _) (be_length _ _)
+  have hD : ofBE (be 3 (tsWire e.tsField)) = tsWire e.tsField := ofBE_be_of_lt (by have := tsWire_lt e.tsField; omega)
+  have hL : ofBE (be 3 e.len) = e.len := ofBE_be_of_lt (by omega)
+  have hT : (UInt8.ofNat e.ty).toNat = e.ty := u8_ofNat_toNat_lt hty
+  have hc0 : ch.count = 0 → ch.cid = Gen.Rtmp.chunkIDProtocolControl := by
+    intro h0; rcases hcount with h | h
+    · exact absurd h0 h
+    · exact h
+  have e4 : readFull 4 (be 4 e.tsField ++ tail) = ok (be 4 e.tsField, tail) := readFull_append _ _ (be_length 4 _)
+  have h4 : ofBE (be 4 e.tsField) = e.tsField := ofBE_be_of_lt (by omega)
+  have hw : 16777215 ≤ tsWire e.tsField := (tsWire_ext _).mpr hx
+  rw [hf]
+  simp only [readMessageHeader, hmsg, Option.isNone_none, Option.isSome_none, hsz1, Res.bind_ok, messageHeader, hf]
+  simp only [show ¬ (1 : Nat) = 0 by decide, if_false, if_true]
+  rw [readFull_append _ _ s7]
+  simp only [Res.bind_ok, applyHeader_1, fD, fL, fT, s3, s33, s6, hD, hL, hT]
+  simp [hx, hw, hdrOfCs, csAfter, newTs, hb, hf, hr.hdr, extendedTimestamp, hsid, e4, h4]
+  exact hc0
+
+theorem readMessageHeader_spec2_ext (k : Nat) (c : CsState) (ch : ChunkStream) (e : ChunkEv) (tail : Bytes)
+    (hr : RelCs k c ch) (hev : EvOK e) (hf : e.fmt = 2) (hb : c.busy = false)
+    (hsame : e.sid = c.sid ∧ e.len = c.len ∧ e.ty = c.ty)
+    (hcount : ch.count ≠ 0) (hx : 16777215 ≤ e.tsField) :
+    readMessageHeader ch e.fmt (messageHeader e ++ (extendedTimestamp e ++ tail)) =
+      ok ({ ch with hdr := hdrOfCs k (csAfter true c e), msg := some { hdr := hdrOfCs k (csAfter true c e), payload := [] },
+                    count := ch.count + 1, extTs := decide (16777215 ≤ e.tsField) }, tail) := by
+  obtain ⟨hsid, hlen, hty⟩ := hsame
+  have hts := hev.2.2.1
+  have hmsg : ch.msg = none := by rw [hr.msg, hb]; rfl
+  have hD : ofBE (be 3 (tsWire e.tsField)) = tsWire e.tsField := ofBE_be_of_lt (by have := tsWire_lt e.tsField; omega)
+  have s3 : (be 3 (tsWire e.tsField)).take 3 = be 3 (tsWire e.tsField) := List.take_of_length_le (by simp)
+  have e4 : readFull 4 (be 4 e.tsField ++ tail) = ok (be 4 e.tsField, tail) := readFull_append _ _ (be_length 4 _)
+  have h4 : ofBE (be 4 e.tsField) = e.tsField := ofBE_be_of_lt (by omega)
+  have hw : 16777215 ≤ tsWire e.tsField := (tsWire_ext _).mpr hx
+  rw [hf]
+  simp only [readMessageHeader, hmsg, Option.isNone_none, Option.isSome_none, hsz2, Res.bind_ok, messageHeader, hf, hcount,
+    false_and, if_false]
+  simp only [show ¬ (2 : Nat) = 0 by decide, show ¬ (2 : Nat) = 1 by decide, if_false, if_true]
+  rw [readFull_append _ _ (be_length 3 _)]
+  simp only [Res.bind_ok, applyHeader_2, fD, s3, hD]
+  simp [hx, hw, hdrOfCs, csAfter, newTs, hb, hf, hr.hdr, extendedTimestamp, hsid, hlen, hty, e4, h4]
+
+theorem readMessageHeader_spec3_first_ext (k : Nat) (c : CsState) (ch : ChunkStream) (e : ChunkEv) (tail : Bytes)
+    (hr : RelCs k c ch) (hf : e.fmt = 3) (hb : c.busy = false)
+    (hsame : e.tsField = c.delta ∧ e.len = c.len ∧ e.ty = c.ty ∧ e.sid = c.sid)
+    (hcount : ch.count ≠ 0) (hx : 16777215 ≤ e.tsField) :
+    readMessageHeader ch e.fmt (messageHeader e ++ (extendedTimestamp e ++ tail)) =
+      ok ({ ch with hdr := hdrOfCs k (csAfter true c e), msg := some { hdr := hdrOfCs k (csAfter true c e), payload := [] },
+                    count := ch.count + 1, extTs := decide (16777215 ≤ e.tsField) }, tail) := by
+  obtain ⟨hd, hlen, hty, hsid⟩ := hsame
+  have hmsg : ch.msg = none := by rw [hr.msg, hb]; rfl
+  have hx' : 16777215 ≤ c.delta := by rw [← hd]; exact hx
+  have hts := hr.delta
+  have e4 : readFull 4 (be 4 c.delta ++ tail) = ok (be 4 c.delta, tail) := readFull_append _ _ (be_length 4 _)
+  have h4 : ofBE (be 4 c.delta) = c.delta := ofBE_be_of_lt (by omega)
+  rw [hf]
+  simp only [readMessageHeader, hmsg, Option.isNone_none, Option.isSome_none, hsz3, Res.bind_ok, messageHeader, hf, hcount,
+    false_and, if_false]
+  simp only [show ¬ (3 : Nat) = 0 by decide, show ¬ (3 : Nat) = 1 by decide, show ¬ (3 : Nat) = 2 by decide, if_false]
+  rw [List.nil_append, readFull_zero]
+  simp only [Res.bind_ok, applyHeader_3 _ 3 (Nat.le_refl _)]
+  simp [hx', hr.ext, hdrOfCs, csAfter, newTs, hb, hf, hr.hdr, extendedTimestamp, hd, hsid, hlen, hty, e4, h4]
+
+/-- All header types at once. Either the deviating reading (`a = true`: extended field = absolute
+time) or no extended delta in this event. -/
+theorem readMessageHeader_spec (a : Bool) (k : Nat) (c : CsState) (ch : ChunkStream) (e : ChunkEv) (tail : Bytes)
     (hr : RelCs k c ch) (hev : EvOK e) (hh : HeaderOK c e)
     (hcount : ch.count ≠ 0 ∨ e.fmt = 0 ∨ (ch.cid = 2 ∧ e.fmt = 1))
-    (hno : ¬ (16777215 ≤ e.tsField ∧ (e.fmt = 1 ∨ e.fmt = 2 ∨ (e.fmt = 3 ∧ c.busy = false)))) :
+    (hno : a = true ∨ ¬ (16777215 ≤ e.tsField ∧ (e.fmt = 1 ∨ e.fmt = 2 ∨ (e.fmt = 3 ∧ c.busy = false)))) :
     readMessageHeader ch e.fmt (messageHeader e ++ (extendedTimestamp e ++ tail)) =
-      ok ({ ch with hdr := hdrOfCs k (csAfter c e),
-                    msg := some { hdr := hdrOfCs k (csAfter c e), payload := (csAfter c e).got },
+      ok ({ ch with hdr := hdrOfCs k (csAfter a c e),
+                    msg := some { hdr := hdrOfCs k (csAfter a c e), payload := (csAfter a c e).got },
                     count := ch.count + 1, extTs := decide (16777215 ≤ e.tsField) }, tail) := by
   have hf3 := hev.2.1
   unfold HeaderOK at hh
@@ -192,29 +268,37 @@ theorem readMessageHeader_spec (k : Nat) (c : CsState) (ch : ChunkStream) (e : C
       · exact h
       · omega
       · omega
-    have := readMessageHeader_spec3_cont k c ch e tail hr hh.1 hb hh.2 hc
+    have := readMessageHeader_spec3_cont a k c ch e tail hr hh.1 hb hh.2 hc
     simpa [csAfter, hb] using this
   | false =>
     simp only [hb, Bool.false_eq_true, if_false] at hh
-    have hgot : (csAfter c e).got = [] := by simp [csAfter, hb]
+    have hgot : (csAfter a c e).got = [] := by simp [csAfter, hb]
     rw [hgot]
     have hfm : e.fmt = 0 ∨ e.fmt = 1 ∨ e.fmt = 2 ∨ e.fmt = 3 := by omega
     rcases hfm with hf | hf | hf | hf
-    · exact readMessageHeader_spec0 k c ch e tail hr hev hf hb
+    · exact readMessageHeader_spec0 a k c ch e tail hr hev hf hb
     · simp only [hf, show ¬ (1 : Nat) = 0 by decide, if_false, if_true] at hh
       have hc : ch.count ≠ 0 ∨ ch.cid = 2 := by
         rcases hcount with h | h | h
         · exact Or.inl h
         · omega
         · exact Or.inr h.1
-      exact readMessageHeader_spec1 k c ch e tail hr hev hf hb hh hc (fun hx => hno ⟨hx, Or.inl hf⟩)
+      by_cases hx : 16777215 ≤ e.tsField
+      · rcases hno with rfl | hno
+        · exact readMessageHeader_spec1_ext k c ch e tail hr hev hf hb hh hc hx
+        · exact absurd ⟨hx, Or.inl hf⟩ hno
+      · exact readMessageHeader_spec1 a k c ch e tail hr hev hf hb hh hc hx
     · simp only [hf, show ¬ (2 : Nat) = 0 by decide, show ¬ (2 : Nat) = 1 by decide, if_false, if_true] at hh
       have hc : ch.count ≠ 0 := by
         rcases hcount with h | h | h
         · exact h
         · omega
         · omega
-      exact readMessageHeader_spec2 k c ch e tail hr hf hb hh hc (fun hx => hno ⟨hx, Or.inr (Or.inl hf)⟩)
+      by_cases hx : 16777215 ≤ e.tsField
+      · rcases hno with rfl | hno
+        · exact readMessageHeader_spec2_ext k c ch e tail hr hev hf hb hh hc hx
+        · exact absurd ⟨hx, Or.inr (Or.inl hf)⟩ hno
+      · exact readMessageHeader_spec2 a k c ch e tail hr hf hb hh hc hx
     · simp only [hf, show ¬ (3 : Nat) = 0 by decide, show ¬ (3 : Nat) = 1 by decide, show ¬ (3 : Nat) = 2 by decide,
         if_false] at hh
       have hc : ch.count ≠ 0 := by
@@ -222,7 +306,11 @@ theorem readMessageHeader_spec (k : Nat) (c : CsState) (ch : ChunkStream) (e : C
         · exact h
         · omega
         · omega
-      exact readMessageHeader_spec3_first k c ch e tail hr hf hb hh hc (fun hx => hno ⟨hx, Or.inr (Or.inr ⟨hf, hb⟩)⟩)
+      by_cases hx : 16777215 ≤ e.tsField
+      · rcases hno with rfl | hno
+        · exact readMessageHeader_spec3_first_ext k c ch e tail hr hf hb hh hc hx
+        · exact absurd ⟨hx, Or.inr (Or.inr ⟨hf, hb⟩)⟩ hno
+      · exact readMessageHeader_spec3_first a k c ch e tail hr hf hb hh hc hx
 
 /-- The payload slice of one chunk. -/
 theorem readMessagePayload_data (ic : Nat) (ch : ChunkStream) (h : Header) (pre data tail : Bytes)
